@@ -339,7 +339,7 @@ Proof.
 Qed.
 
 Lemma Good_event x ev :
-  match ev with CClosed | CReg _ | CUsable _ | CWcb | CScb => True | _ => False end -> wf x -> Good x [ev] x.
+  match ev with CClosed | CReg _ | CUsable _ | CWcb | CScb | CTry _ => True | _ => False end -> wf x -> Good x [ev] x.
 Proof.
   intros E W. destruct ev; try contradiction;
     (constructor; [exact W|lia|cbn; constructor|cbn; constructor|intros r; cbn; reflexivity|reflexivity|
@@ -489,6 +489,8 @@ Lemma cexec_simple_good x o x' e : wf x -> cexec_simple x o = (x', e) -> Good x 
 Proof.
   intros W H. unfold cexec_simple in H.
   destruct o; try (eapply aux_op_good; eassumption); try (eapply cclose_good; eassumption);
+    try (destruct (c_closing (cs x) || negb (c_fd (cs x)) || negb (pending (cs x))); inversion H; subst;
+         [apply Good_refl, W|apply Good_event; [exact I|exact W]]);
     try (inversion H; subst; apply Good_refl, W);
     (destruct (c_closing (cs x)) eqn:C; [inversion H; subst; apply Good_refl, W|]);
     (destruct (c_tcp (cs x)) eqn:T; cbn [andb] in H; try (inversion H; subst; apply Good_refl, W)).
@@ -1176,6 +1178,8 @@ Proof.
   - eapply aux_op_I5; eauto.
   - eapply aux_op_I5; eauto.
   - eapply aux_op_I5; eauto.
+  - destruct (c_closing (cs x) || negb (c_fd (cs x)) || negb (pending (cs x))); inversion H; subst;
+      [apply P5_same, I|split; [exact I|repeat constructor]].
   - unfold cclose in H. destruct (c_closing (cs x)); inversion H; subst; [apply P5_same, I|].
     split; [|constructor]. eapply I5_same; [exact I| | | |]; reflexivity.
   - apply Same, H.
